@@ -450,19 +450,13 @@ class Merger:
         parent: Any = kwargs.pop("parent", None)
         parentref: Any = kwargs.pop("parentref", None)
         node_coord = NodeCoords(rhs, parent, parentref)
-        if len(rhs) > 0:
-            if isinstance(rhs[0], CommentedMap):
-                # This list is an Array-of-Hashes
-                return self._merge_arrays_of_hashes(lhs, rhs, path, node_coord)
+        if len(rhs) > 0 and isinstance(rhs[0], CommentedMap):
+            # This list is an Array-of-Hashes
+            return self._merge_arrays_of_hashes(lhs, rhs, path, node_coord)
 
-            # This list is an Array-of-Arrays or a simple list of Scalars
-            return self._merge_simple_lists(lhs, rhs, path, node_coord)
-
-        # No RHS list
-        if not isinstance(lhs, CommentedSeq):
-            raise MergeException(
-                "Impossible to add Array data to non-Array destination.", path)
-        return lhs
+        # This list is an Array-of-Arrays, a simple list of Scalars, or empty;
+        # an empty RHS list still replaces the LHS list under the RIGHT mode
+        return self._merge_simple_lists(lhs, rhs, path, node_coord)
 
     def _merge_sets(
         self, lhs: CommentedSet, rhs: CommentedSet, path: YAMLPath,
